@@ -32,6 +32,7 @@ Oracle per sub-case (statement of C19):
   any exception from the optimiser call is a violation.
 """
 import math
+import os
 
 from hypothesis import strategies as st
 
@@ -79,8 +80,11 @@ ASSUMPTIONS = [
 # Known findings on the unchanged tree (see known_findings.d/C19.jsonl).  When
 # a flag is True the generator keeps only a small share of cases that trigger
 # the finding (class `known_trigger:*`), so the rest of the search is not blind.
-KNOWN_RANDOM_PADDING = True      # random strategy ignores feature padding
-KNOWN_PRIOR_NOT_MERGED = True    # priors never merged into the best results
+# VERIF_C19_ASSUME_FIXED=1 (e.g. on a tree with proposals/C19/*.diff applied)
+# switches the avoidance off: every trigger is generated at its natural rate.
+_AVOID = not os.environ.get('VERIF_C19_ASSUME_FIXED')
+KNOWN_RANDOM_PADDING = _AVOID    # random strategy ignores feature padding
+KNOWN_PRIOR_NOT_MERGED = _AVOID  # priors never merged into the best results
 
 
 # ------------------------------------------------------------------ generator
@@ -431,6 +435,15 @@ def check(case):
         out.violate('padding/categorical_nonzero/' + strategy,
                     '%s: padded columns %r' % (tag, pk.reshape(-1, nkp - nk)
                                                [:3].tolist()))
+    # loop evaluations logged by the score function (prior scoring comes first)
+    plog = log[:1] if prior_mi is not None else []
+    llog = log[1:] if prior_mi is not None else log
+    loop_r = (np.concatenate([l[2] for l in llog]) if llog
+              else np.zeros([0], np.float32))
+    # fewer real-valued evaluations than `count` although NaN-scored ones
+    # exist: what fills the rest is decided by the ranking of NaN
+    nan_shortfall = bool(np.sum(~np.isnan(loop_r)) < count
+                         and np.any(np.isnan(loop_r)))
     # ---- (3) reported reward == score at the candidate
     if n_parallel is None:
       mine = np.asarray(score(lib.as_model_input(fc[:, 0, :], fk[:, 0, :])))
@@ -454,6 +467,12 @@ def check(case):
       zero = (not np.any(fc[i] != 0)) and (not np.any(fk[i] != 0))
       rk = ('nan' if math.isnan(a) else 'neginf' if a == -math.inf
             else 'posinf' if a == math.inf else 'finite')
+      if zero and rk == 'neginf' and nan_shortfall:
+        out.violate('best/placeholder_outranks_nan/' + strategy,
+                    '%s: candidate %d is the all-zero -inf placeholder, score '
+                    'there is %r; loop rewards %r' % (tag, i, b,
+                                                      loop_r.tolist()[:12]))
+        break
       out.violate('reward/mismatch/reported_%s/%s' % (
           rk, 'all_zero_features' if zero else 'evaluated_features'),
                   '%s: candidate %d features=%r/%r reported=%r score=%r '
@@ -463,8 +482,6 @@ def check(case):
     if nonfinite_seen:
       out.cls('nonfinite_reward_returned')
     # ---- (7) returned candidates were evaluated and are the top `count`
-    plog = log[:1] if prior_mi is not None else []
-    llog = log[1:] if prior_mi is not None else log
     n_evaluated = int(sum(l[2].shape[0] for l in llog))
     if len(llog) != steps:
       out.cls('loop_steps_differ_from_ceil')  # not part of the property
@@ -488,6 +505,12 @@ def check(case):
                & ((a_r == rw[i]) | (np.isnan(a_r) & np.isnan(rw[i]))))
         if not np.any(hit):
           zero = (not np.any(fc[i] != 0)) and (not np.any(fk[i] != 0))
+          if zero and rw[i] == -np.inf and nan_shortfall:
+            out.violate('best/placeholder_outranks_nan/' + strategy,
+                        '%s: candidate %d is the never evaluated all-zero '
+                        '-inf placeholder; loop rewards %r' % (
+                            tag, i, loop_r.tolist()[:12]))
+            break
           out.violate('evaluated/candidate_never_evaluated/%s' % (
               'all_zero_features' if zero else 'other'),
                       '%s: candidate %d features=%r/%r reward=%r' % (
@@ -615,7 +638,7 @@ def families(tier):
       core.Family(
           'optimize', check,
           strategy=strategy_quick if tier == 'quick' else strategy_thorough,
-          budget={'quick': 144, 'thorough': 1600},
+          budget={'quick': 144, 'thorough': 2400},
           shards={'quick': 16, 'thorough': 32},
           required_classes=(
               'strategy_eagle', 'strategy_random', 'padded_dims',
